@@ -118,6 +118,18 @@ macro_rules! build_indexed {
                 // remove garbage edges between real nodes, then the junk nodes (with their edges)
                 g.retain_edges(|fz, e| fz[e] != E::from_i64(GARBAGE_W));
                 g.retain_nodes(|fz, a| fz[a] != -1);
+                // second kind of garbage: a real node is removed and rebuilt with the same incident edges
+                if ag.n > 0 && rng.chance(1, 2) {
+                    let v = rng.below(ag.n);
+                    let old = g.node_indices().find(|&a| g[a] == v as i32).unwrap();
+                    g.remove_node(old);
+                    g.add_node(v as i32);
+                    let find = |g: &$G<i32, E, Ty, u32>, x: usize| g.node_indices().find(|&a| g[a] == x as i32).unwrap();
+                    for &(s, t, w) in ag.edges.iter().filter(|e| e.0 == v || e.1 == v) {
+                        let (a, b) = (find(&g, s), find(&g, t));
+                        g.add_edge(a, b, E::from_i64(w));
+                    }
+                }
             }
             // node weights identify the abstract nodes whatever renumbering happened
             let mut fwd = vec![NodeIndex::new(0); ag.n];
@@ -174,6 +186,15 @@ pub fn build_matrix<Ty: EdgeType, E: EW>(ag: &AG, hist: usize, rng: &mut Rng) ->
         // reuse a freed id once and free it again
         let x = g.add_node(-1);
         g.remove_node(x);
+        // a real node is removed and rebuilt (possibly under another id) with the same incident edges
+        if ag.n > 0 && rng.chance(1, 2) {
+            let v = rng.below(ag.n);
+            g.remove_node(ids[v].unwrap());
+            ids[v] = Some(g.add_node(v as i32));
+            for &(s, t, w) in ag.edges.iter().filter(|e| e.0 == v || e.1 == v) {
+                g.add_edge(ids[s].unwrap(), ids[t].unwrap(), E::from_i64(w));
+            }
+        }
     }
     (g, ids.into_iter().map(|x| x.unwrap()).collect())
 }
@@ -204,6 +225,16 @@ pub fn build_map<Ty: EdgeType, E: EW>(ag: &AG, hist: usize, rng: &mut Rng) -> (G
     }
     for j in junk {
         g.remove_node(j);
+    }
+    // garbage history, second kind: a real node is removed and then rebuilt with the same key and the same edges
+    // (the abstract graph is unchanged; stale entries of the removal would now shadow the re-inserted edges)
+    if garbage && ag.n > 0 && rng.chance(1, 2) {
+        let v = rng.below(ag.n);
+        g.remove_node(map_key(v));
+        g.add_node(map_key(v));
+        for &(s, t, w) in ag.edges.iter().filter(|e| e.0 == v || e.1 == v) {
+            g.add_edge(map_key(s), map_key(t), E::from_i64(w));
+        }
     }
     (g, (0..ag.n).map(map_key).collect())
 }
